@@ -172,6 +172,12 @@ def compare(src, dst, refattrs, report):
         for part, s, d_, secs in (('content.xml', sc, dc, ['body']), ('styles.xml', ss, ds, ['styles', 'master-styles'])):
             if s is None: continue
             if bad(s): continue
+            if tuple(s[1]) != (OFF, 'document-' + part[:-4]):
+                # a part of another vocabulary - the content.xml of a formula object is MathML in most producers: it is the object's
+                # body, and kept as it is
+                d = 'the part is not saved' if bad(d_) else first_diff(norm(s), norm(d_))
+                if d: report('foreign-root-part-differs', folder + part, d, 'the part as in the source', {'aspect': 'part', 'part': part, 'root': 'foreign'})
+                continue
             if bad(d_):
                 report('part-lost', folder + part, d_, 'the part is saved and parses', {'aspect': 'part', 'part': part}); continue
             sautos = (section(s, 'automatic-styles') or (0, 0, 0, []))[3]; dautos = (section(d_, 'automatic-styles') or (0, 0, 0, []))[3]
